@@ -112,19 +112,38 @@ class OnePreemption:
         tid = threading.get_ident()
         with self.cv:
             if tid == self.ta_tid:
-                if not self.ta_done.is_set() and self.count > 0:
-                    self.ta_done.set()
+                pass  # TA's bookkeeping ends when it asks the queue for its next item (_start), not when process_node returns
             elif self.ta_paused.is_set():
                 self.others_done += 1
                 self.finished_native.add(threading.get_native_id())
             self.cv.notify_all()
 
+    def _is_queue_get(self, code):
+        return code.co_name == "get" and code.co_filename.endswith("queue.py")
+
+    def _start(self, code, offset):
+        # the enumerated window is "from the end of call a until TA's worker loop asks for the next item": it covers whatever the loop does
+        # after process_node returned (task_done, and anything a refactoring moves there) as well
+        if not self._is_queue_get(code):
+            return
+        tid = threading.get_ident()
+        if tid == self.ta_tid and self.count > 0 and not self.ta_done.is_set():
+            with self.cv:
+                self.ta_done.set()
+                self.cv.notify_all()
+        else:
+            self._start_other(tid)
+
+    def _start_other(self, tid):
+        pass
+
     def __enter__(self):
         mon.use_tool_id(TOOL, "vmon-preempt")
         mon.register_callback(TOOL, E.INSTRUCTION, self._instr)
         mon.register_callback(TOOL, E.PY_RETURN, self._ret)
+        mon.register_callback(TOOL, E.PY_START, self._start)
         for c in self.codes:
-            mon.set_local_events(TOOL, c, E.INSTRUCTION | (E.PY_RETURN if c.co_name == "process_node" else 0))
+            mon.set_local_events(TOOL, c, E.INSTRUCTION | (E.PY_RETURN if c.co_name == "process_node" else 0) | (E.PY_START if self._is_queue_get(c) else 0))
         mon.set_events(TOOL, 0)
         self.active = True
         return self
@@ -135,7 +154,7 @@ class OnePreemption:
                 mon.set_local_events(TOOL, c, 0)
             except Exception:
                 pass
-        for ev in (E.INSTRUCTION, E.PY_RETURN):
+        for ev in (E.INSTRUCTION, E.PY_RETURN, E.PY_START):
             mon.register_callback(TOOL, ev, None)
         mon.free_tool_id(TOOL)
         self.active = False
@@ -271,6 +290,7 @@ def enumerate_case(desc, oracle):
                 "preempt_position_never_reached": 0}
     points = set()
     witness = None
+    raised = []
     if bad is None:
         for k, hold in [(k, h) for k in range(1, N + 1) for h in ("others", "quiescent")]:
             # two lengths of the preemption at every k: TA resumes as soon as the other predecessors' workers are done with their
@@ -287,6 +307,9 @@ def enumerate_case(desc, oracle):
                 else:
                     counters["preempt_holds_others_completed"] += 1
             bad = oracle(R, ir)
+            if bad is None and R.exc is not None:
+                counters["preempt_runs_of_fault_free_plans_that_raised"] = counters.get("preempt_runs_of_fault_free_plans_that_raised", 0) + 1
+                raised.append(f"k={k} held at {OP.held_at}: {R.exc!r}"[:300])
             if bad:
                 bad = (f"[worker of n{P[desc['a_index']]} held at its instruction #{k} of {N} after the call ended ({OP.held_at}) until "
                        f"{'the other predecessors had finished their bookkeeping' if hold == 'others' else 'the rest of the process was quiescent'}; "
@@ -298,4 +321,261 @@ def enumerate_case(desc, oracle):
            "sample": {"desc": desc, "positions_N": N, "held_points": sorted(points)[:12]}}
     if bad:
         res.update(status="violation", detail=bad, mechanism="preempt1", witness=witness)
+    elif raised:
+        # the plan has no failing call: a run that raises is not what this oracle decides, but nothing was learnt from it either
+        res.update(status="inconclusive", detail=f"{len(raised)} enumerated runs of a fault-free plan raised; first: {raised[0]}")
+    return res
+
+
+# ----------------------------------------------------------------------------------------------- two preemptions
+class TwoPreemptions(OnePreemption):
+    """Schedule "TA preempted at its instruction k1; TB (the worker of another predecessor, which was waiting inside its call for exactly
+    that moment) runs its bookkeeping up to ITS instruction k2 and is preempted there; TA runs on to the end of its bookkeeping; TB resumes".
+    This is the lost-update shape (both inside what should be one critical section) and needs two context switches at chosen places; with
+    one preemption TB always runs its whole bookkeeping while TA is held. Holds end early when the thread that should run is provably
+    blocked (parked on a lock the held thread owns): that pair is then equivalent to a single preemption."""
+
+    def __init__(self, k1, k2, n_others, hold_timeout=1.0):
+        super().__init__(k1, n_others, hold_timeout=hold_timeout, hold="quiescent")
+        self.k2 = k2
+        self.tb_tid = None
+        self.count_b = 0
+        self.tb_paused = threading.Event()
+        self.tb_done = threading.Event()
+        self.held_at_b = None
+        self.hold_b_expired = False
+        self.positions_b = []
+        self.waiting_native = set()
+
+    def arm_b(self):
+        self.tb_tid = threading.get_ident()
+
+    def wait_for_tb(self, timeout=2.0):
+        # further members of P (3-way shapes) return only when TB is through, so that the two-thread schedule is the one enumerated
+        me = threading.get_native_id()
+        with self.cv:
+            self.other_native.add(me)
+            self.waiting_native.add(me)  # in a (timed) harness wait: not part of "the rest of the process" for the quiescence probes
+            try:
+                self.cv.wait_for(lambda: self.tb_done.is_set() or (self.ta_done.is_set() and not self.ta_paused.is_set()), timeout)
+            finally:
+                self.waiting_native.discard(me)
+
+    def _rest_quiescent_wait(self, until, skip_extra=()):
+        """Called with self.cv held. Waits until until() or every other kernel thread is parked (two identical probes) or the timeout."""
+        import os as _os
+        import time as _t
+
+        from . import quiesce
+
+        me = threading.get_native_id()
+        end = _t.monotonic() + self.hold_timeout
+        stable = 0
+        prev = None
+        while _t.monotonic() < end:
+            self.cv.wait(0.002)
+            if until():
+                return True
+            vec = []
+            ok = True
+            try:
+                tids = [int(t) for t in _os.listdir("/proc/self/task")]
+            except OSError:
+                tids = []
+            skip = self.skip_native | {me} | self.waiting_native
+            for t in tids:
+                if t in skip:
+                    continue
+                parked, cs = quiesce.probe(t)
+                if not parked:
+                    ok = False
+                    break
+                vec.append((t, cs))
+            if ok and vec and vec == prev:
+                stable += 1
+                if stable >= 2:
+                    return False
+            else:
+                stable = 0
+            prev = vec if ok else None
+        return False
+
+    def _instr(self, code, offset):
+        tid = threading.get_ident()
+        if self.ta_tid is not None and tid == self.ta_tid and not self.ta_done.is_set():
+            self.count += 1
+            if len(self.positions) < 3000:
+                self.positions.append((code.co_name, offset))
+            if self.k is not None and self.count == self.k and not self.ta_paused.is_set():
+                self.held_at = (code.co_name, offset)
+                with self.cv:
+                    self.ta_paused.set()
+                    self.cv.notify_all()
+                    got = self._rest_quiescent_wait(lambda: self.tb_paused.is_set() or self.tb_done.is_set())
+                    self.hold_expired = not got  # TB could not get to k2 (nor finish): it needs a lock TA owns
+            return
+        if self.tb_tid is not None and tid == self.tb_tid and self.ta_paused.is_set() and not self.tb_done.is_set():
+            self.count_b += 1
+            if len(self.positions_b) < 3000:
+                self.positions_b.append((code.co_name, offset))
+            if self.k2 is not None and self.count_b == self.k2 and not self.tb_paused.is_set() and not self.ta_done.is_set():
+                self.held_at_b = (code.co_name, offset)
+                with self.cv:
+                    self.tb_paused.set()
+                    self.cv.notify_all()
+                    got = self._rest_quiescent_wait(lambda: self.ta_done.is_set())
+                    self.hold_b_expired = not got  # TA could not finish while TB was held: TA needs a lock TB owns
+
+    def _ret(self, code, offset, retval):
+        if code.co_name != "process_node":
+            return
+        tid = threading.get_ident()
+        with self.cv:
+            if tid == self.ta_tid or tid == self.tb_tid:
+                pass  # their windows end at their next queue.get (_start / _start_other)
+            elif self.ta_paused.is_set():
+                self.others_done += 1
+            self.cv.notify_all()
+
+    def _start_other(self, tid):
+        if tid == self.tb_tid and self.ta_paused.is_set() and self.count_b > 0 and not self.tb_done.is_set():
+            with self.cv:
+                self.tb_done.set()
+                self.others_done += 1
+                self.cv.notify_all()
+
+
+def run_twice_preempted(shape, a_index, b_index, k1, k2, W_extra, sched, seed):
+    import time
+
+    from . import plainrun
+
+    ir, P, slow = build_ir(shape)
+    a, b = P[a_index], P[b_index]
+    OP = TwoPreemptions(k1, k2, len(P) - 1)
+    holder = {}
+
+    def pre(nid, att):
+        H = holder["R"].H
+        if nid == a:
+            end = time.monotonic() + 1.0
+            while time.monotonic() < end:
+                with H.lock:
+                    started = sum(1 for p in P if p in H.attempts)
+                if started == len(P):
+                    break
+                time.sleep(0.0002)
+        elif nid == b:
+            OP.wait_for_ta()
+        elif nid in P:
+            OP.wait_for_tb()
+        elif nid in slow:
+            # the slow input of the downstream join outlasts both workers' bookkeeping (holds take milliseconds), so that a join released
+            # twice becomes an ordering violation and not only a double execution
+            me = threading.get_native_id()
+            with OP.cv:
+                OP.waiting_native.add(me)  # a timed harness wait must not keep the quiescence probes from succeeding
+                try:
+                    OP.cv.wait_for(lambda: OP.ta_done.is_set() and (OP.tb_done.is_set() or not OP.ta_paused.is_set()), 3.0)
+                finally:
+                    OP.waiting_native.discard(me)
+            time.sleep(0.03)
+
+    def post(nid, att, res):
+        if nid == a:
+            OP.arm()
+        elif nid == b:
+            OP.arm_b()
+
+    desc = {"seed": seed, "n": len(ir.nodes), "W": len(P) + W_extra, "sched": sched, "perturb": "none", "delays": "none"}
+    with OP:
+        def before_run(R_):
+            holder["R"] = R_
+            if R_.hang_drv is not None and R_.hang_drv.thread is not None:
+                OP.skip_native.add(R_.hang_drv.thread.native_id)
+
+        R = plainrun.execute(desc, pre=pre, post=post, record_args=False, ir=ir, before_run=before_run)
+    return R, OP, ir, P
+
+
+NP = {"join2": 2, "join3": 3, "two_joins": 2, "hub": 2, "hub_chain": 3, "mixed": 2, "edge_kinds": 3, "join_then": 2}
+
+
+def gen_descs2(tier, seed, prop, focus=(), pairs_quick=90, pairs_focus=300):
+    """Two-preemption cases. Quick: a seeded sample of (k1, k2) pairs per case; thorough: every pair for the 2-predecessor shapes (capped at
+    9000 - the evidence reports pairs enumerated vs possible), a larger sample for the others."""
+    from . import env
+
+    out = []
+    for shape in SHAPES:
+        nP = NP[shape]
+        for a_index in range(nP):
+            for b_index in range(nP):
+                if b_index == a_index:
+                    continue
+                if tier == "quick" and nP == 3 and (a_index, b_index) not in ((0, 1), (2, 0)):
+                    continue
+                sched = "default" if (a_index + b_index + len(shape)) % 3 else "random"
+                pairs = (pairs_focus if shape in focus else pairs_quick) if tier == "quick" else (9000 if nP == 2 else 1500)  # 2-predecessor shapes: every pair (at most ~8000), others: a sample
+                out.append({"seed": env.seed_for(seed, prop, tier, "preempt2", shape, a_index, b_index), "mode": "preempt2", "shape": shape, "a_index": a_index,
+                            "b_index": b_index, "sched": sched, "W_extra": 1, "n": 4, "W": nP + 1, "perturb": "none", "pairs": pairs})
+    return out
+
+
+def enumerate_pairs(desc, oracle):
+    import hashlib
+    import random
+
+    shape, ai, bi = desc["shape"], desc["a_index"], desc["b_index"]
+    # counting run: TA held at its first instruction so that TB's bookkeeping is counted from its start; TB never held
+    R, OP, ir, P = run_twice_preempted(shape, ai, bi, 1, None, desc["W_extra"], desc["sched"], desc["seed"])
+    N2 = OP.count_b
+    R1, OP1, _, _ = run_once(shape, ai, None, desc["W_extra"], desc["sched"], desc["seed"])
+    N1 = OP1.count
+    if N1 == 0 or N2 == 0:
+        return {"status": "inconclusive", "detail": f"two-preemption enumeration: no monitored instruction counted (TA {N1}, TB {N2})"}
+    bad = oracle(R, ir) or oracle(R1, ir)
+    allpairs = [(k1, k2) for k1 in range(1, N1 + 1) for k2 in range(1, N2 + 1)]
+    rnd = random.Random(desc["seed"])
+    if desc.get("pairs") and desc["pairs"] < len(allpairs):
+        pairs = rnd.sample(allpairs, desc["pairs"])
+    else:
+        pairs = allpairs
+    counters = {"preempt2_cases": 1, "preempt2_pairs_enumerated": 0, "preempt2_both_held": 0, "preempt2_ta_ran_to_end_while_tb_held": 0,
+                "preempt2_tb_blocked_by_ta": 0, "preempt2_ta_blocked_by_tb": 0, "preempt2_k_not_reached": 0, "preempt2_pairs_possible": len(allpairs)}
+    points = set()
+    witness = None
+    raised = []
+    if bad is None:
+        for n, (k1, k2) in enumerate(pairs):
+            R, OP, ir, P = run_twice_preempted(shape, ai, bi, k1, k2, desc["W_extra"], desc["sched"], desc["seed"] + n)
+            counters["preempt2_pairs_enumerated"] += 1
+            if OP.held_at is None or OP.held_at_b is None:
+                counters["preempt2_k_not_reached"] += 1
+                if OP.held_at is not None and OP.hold_expired:
+                    counters["preempt2_tb_blocked_by_ta"] += 1
+            else:
+                counters["preempt2_both_held"] += 1
+                points.add(f"{OP.held_at[0]}@{OP.held_at[1]}|{OP.held_at_b[0]}@{OP.held_at_b[1]}")
+                if OP.hold_b_expired:
+                    counters["preempt2_ta_blocked_by_tb"] += 1
+                else:
+                    counters["preempt2_ta_ran_to_end_while_tb_held"] += 1
+            bad = oracle(R, ir)
+            if bad is None and R.exc is not None:
+                counters["preempt_runs_of_fault_free_plans_that_raised"] = counters.get("preempt_runs_of_fault_free_plans_that_raised", 0) + 1
+                raised.append(f"k1={k1} {OP.held_at} k2={k2} {OP.held_at_b}: {R.exc!r}"[:300])
+            if bad:
+                bad = (f"[worker of n{P[ai]} held at its instruction #{k1} ({OP.held_at}); worker of n{P[bi]} then ran to its instruction #{k2} ({OP.held_at_b}) "
+                       f"and was held while the first ran on; shape {shape}, {desc['sched']}, W={desc['W']}] {bad}")
+                witness = {"plan": ir.describe(40), "history": R.H.compact_history(200), "k1": k1, "k2": k2, "held_at": OP.held_at, "held_at_b": OP.held_at_b}
+                break
+    res = {"status": "ok", "counters": counters, "sets": {"preempt2_point_pairs_held": sorted(points)[:400]},
+           "nontrivial": counters["preempt2_ta_ran_to_end_while_tb_held"] > 0,
+           "sig": hashlib.sha1(f"preempt2|{shape}|{ai}|{bi}|{desc['sched']}".encode()).hexdigest()[:16],
+           "sample": {"desc": desc, "N1": N1, "N2": N2, "pairs": len(pairs)}}
+    if bad:
+        res.update(status="violation", detail=bad, mechanism="preempt2", witness=witness)
+    elif raised:
+        res.update(status="inconclusive", detail=f"{len(raised)} enumerated runs of a fault-free plan raised; first: {raised[0]}")
     return res
